@@ -281,33 +281,8 @@ func serveSuffix(s *Srv, state *Model, ever map[int]map[uint64]bool) error {
 	if err := x.Rename(d, "f", root, "zz_moved"); err != nil {
 		return err
 	}
-	// Grow files over block positions that held data earlier in the run (and were truncated
-	// away in this state): they must read as zeros, not as the old data.
-	probed := 0
-	for _, f := range x.M.LiveKind(nt.NF3REG) {
-		var bs []uint64
-		for b := range ever[f.ID] {
-			if b*BlockSize >= f.Size {
-				bs = append(bs, b)
-			}
-		}
-		if len(bs) == 0 || probed >= 3 {
-			continue
-		}
-		probed++
-		sortU64(bs)
-		if len(bs) > 6 {
-			bs = append(bs[:3], bs[len(bs)-3:]...)
-		}
-		sz := (bs[len(bs)-1] + 1) * BlockSize
-		if err := x.Setattr(LiveRef(f), &sz, false); err != nil {
-			return err
-		}
-		for _, b := range bs {
-			if err := x.Read(LiveRef(f), b*BlockSize, BlockSize); err != nil {
-				return err
-			}
-		}
+	if err := probeResurrected(x, ever); err != nil {
+		return err
 	}
 	for _, old := range x.M.LiveKind(nt.NF3REG) {
 		if old.Name != "zz_moved" {
@@ -335,4 +310,47 @@ func (cr *CrashRun) hasTruncatedData(m *Model) bool {
 		}
 	}
 	return false
+}
+
+// probeResurrected grows files over block positions that held data earlier in the run (and were
+// truncated away in this state): they must read as zeros, not as the old data.
+func probeResurrected(x *Exec, ever map[int]map[uint64]bool) error {
+	probed := 0
+	for _, f := range x.M.LiveKind(nt.NF3REG) {
+		var bs []uint64
+		for b := range ever[f.ID] {
+			if b*BlockSize >= f.Size {
+				bs = append(bs, b)
+			}
+		}
+		if len(bs) == 0 || probed >= 3 {
+			continue
+		}
+		probed++
+		sortU64(bs)
+		if len(bs) > 6 {
+			bs = append(bs[:3], bs[len(bs)-3:]...)
+		}
+		sz := (bs[len(bs)-1] + 1) * BlockSize
+		if err := x.Setattr(LiveRef(f), &sz, false); err != nil {
+			return err
+		}
+		for _, b := range bs {
+			if err := x.Read(LiveRef(f), b*BlockSize, BlockSize); err != nil {
+				return err
+			}
+		}
+	}
+	return nil
+}
+
+func execOnState(s *Srv, state *Model, prop string) *Exec {
+	x := &Exec{S: s, Prop: prop, Watchdog: 60 * time.Second, allFH: map[string]int{}, Budget: 1 << 40}
+	x.M = state.Snapshot()
+	for _, n := range x.M.Objs {
+		if n.FH != nil {
+			x.allFH[string(n.FH)] = n.ID
+		}
+	}
+	return x
 }
